@@ -293,7 +293,14 @@ func (cb *crlBuilder) _doRebuild(sc *storageContext, forceNew bool, ignoreForceF
 
 		// if forceRebuild was requested, that should force a complete rebuild even if requested not too by forceNew
 		myForceNew := forceBuildFlag || forceNew
-		return buildCRLs(sc, myForceNew)
+		warnings, err := buildCRLs(sc, myForceNew)
+		if err != nil {
+			// The CRLs in storage may now be missing revocations that have
+			// already been recorded; keep a rebuild pending so that the next
+			// reader or periodic run retries instead of serving them as is.
+			cb.forceRebuild.Store(true)
+		}
+		return warnings, err
 	}
 
 	return nil, nil
